@@ -14,7 +14,7 @@ from pegen.grammar import Alt, NamedItem, NameLeaf, Rhs, Rule, StringLeaf
 NAMES = ["a", "b", "c", "d", "e", "f", "g"]
 
 PRELUDE = """From Coq Require Import List String NArith Bool Arith.
-From Pegen Require Import Base.StrUtil Analysis.Scc.
+From Pegen Require Import Base.StrUtil Analysis.Scc Proofs.SccCheck.
 Import ListNotations.
 Open Scope string_scope.
 Definition sgraph := graph string.
@@ -37,6 +37,9 @@ OK = ("fun c => let '(vs, g, comps, e, cyc) := c in "
       "  list_eqb strs_eqb (map (fun l => l) (cs)) "
       "    (let found := find_cycles string String.eqb g scc start in "
       "     map (fun k => k) (fold_right (fun x acc => x :: acc) [] (sort_lists found)))) cyc")
+
+CHECKED = ("fun c => let '(vs, g, comps, e, cyc) := c in scc_check string String.eqb g vs comps && "
+           "match e with EFlags lr _ => lr_check string String.eqb g comps lr | EValueError => true end")
 
 SORT_LISTS = """
 Fixpoint strs_ltb (a b : list string) : bool :=
@@ -223,8 +226,15 @@ def run(chk: common.Check, tier: str):
         chk.oblige(f"correspondence K-scc: Analysis/Scc.v agrees with sccutils / compute_left_recursives on "
                    f"{len(cases)} (graph, order) cases (components in yield order, cycles, flags, leader, ValueError)",
                    not failing, json.dumps([descs[i] for i in failing[:3]]))
-    chk.assumptions += ["SCC correctness is proved by exhaustive kernel evaluation up to 4 vertices only (bounds in the "
-                        "theorem statements); the leader theorems are unbounded",
+    failing = common.run_cases(chk, "checked", PRELUDE + SORT_LISTS, "ccase", cases, CHECKED, shard=400)
+    if failing is not None:
+        chk.oblige(f"instance conditions of C16_checked_components_are_exact / C16_checked_flags_are_exact on {len(cases)} "
+                   "(graph, order) cases: the verified checker accepts the components (in yield order) and the "
+                   "left_recursive flags that the REAL sccutils / compute_left_recursives produced",
+                   not failing, json.dumps([descs[i] for i in failing[:3]]))
+    chk.assumptions += ["correctness of the SCC ALGORITHM for all graphs is proved by exhaustive kernel evaluation up to 4 "
+                        "vertices only (bounds in the theorem statements); beyond that, its OUTPUT is validated per explored "
+                        "graph by a checker whose soundness is proved for all graphs; the leader theorems are unbounded",
                         "iteration orders of Python sets inside compute_left_recursives are not controlled by the "
                         "harness (PYTHONHASHSEED fixed); the compared observables are order-independent"]
 
